@@ -80,6 +80,11 @@ def shuffle_masks(n, rng, nrand, exhaustive_small):
     ms.append([n + i if i % 2 == 0 else i for i in range(n)])
     ms.append([(i // 2) + (n if i % 2 else 0) for i in range(n)])           # zip_lo pattern
     ms.append([n // 2 + (i // 2) + (n if i % 2 else 0) for i in range(n)])  # zip_hi pattern
+    if n >= 4:
+        # what the pattern detectors of the generic shuffle could confuse with zip/select (finding shuffle-zip-detector: <0,n,2,n+2,..> taken for zip_lo)
+        ms.append([2 * (i // 2) + (n if i % 2 else 0) for i in range(n)])
+        ms.append([(n // 2 + 2 * (i // 2)) % n + (n if i % 2 else 0) for i in range(n)])
+        ms.append([(i + 1) % n + (n if i % 2 else 0) for i in range(n)])
     ms.append([n - 1 - i for i in range(n)])                                # swizzle of the first operand only
     ms.append([2 * n - 1 - i for i in range(n)])                            # swizzle of the second operand only
     ms.append([i if i < n // 2 else n + i for i in range(n)])               # low half of x, high half of y
